@@ -255,6 +255,36 @@ def sc_index_int_2d(n, m, c, c2, i, e2):
     _expect(t, ("elem", "x", (sx.conc(i), e2)))
 
 
+def sc_index_int_negstep(n, m, c, c2, i, pos, e, e2):
+    """an integer index combined with a negative-step slice on a 3-d array: x[i, ::-1, :] (pos=0), x[:, i, ::-1] (pos=1),
+    x[::-1, :, i] (pos=2): the reversed axis is counted AFTER the integer-indexed dimension has been dropped"""
+    _start()
+    sx.assume(c <= n)
+    sx.assume(c2 <= m)
+    sx.assume(e < n)
+    sx.assume(e2 < m)
+    p = sx.conc(pos)
+    i = sx.conc(i)
+    if p == 0:
+        x = G.stub_array("x", (2, n, m), (1, c, c2))
+        out = x[i, ::-1, :]
+        _declared_ok(out, (n, m))
+        t, _ = _elem(out, (e, e2))
+        _expect(t, ("elem", "x", (i, n - 1 - e, e2)))
+    elif p == 1:
+        x = G.stub_array("x", (n, 2, m), (c, 1, c2))
+        out = x[:, i, ::-1]
+        _declared_ok(out, (n, m))
+        t, _ = _elem(out, (e, e2))
+        _expect(t, ("elem", "x", (e, i, m - 1 - e2)))
+    else:
+        x = G.stub_array("x", (n, m, 2), (c, c2, 1))
+        out = x[::-1, :, i]
+        _declared_ok(out, (n, m))
+        t, _ = _elem(out, (e, e2))
+        _expect(t, ("elem", "x", (n - 1 - e, e2, i)))
+
+
 def sc_concat(n1, n2, c, e):
     _start()
     sx.assume(c <= n1)
@@ -872,6 +902,7 @@ SCENARIOS = {
     "sum[axis0-2d]": (sc_sum_axis0_2d, lambda N: [("n", 1, N), ("m", 1, 3), ("c", 1, N), ("c2", 1, 3), ("s", 2, 3), ("j", 0, N), ("j2", 0, 3), ("e2", 0, 3)]),
     "mean": (sc_mean, lambda N: [("n", 1, N), ("c", 1, N), ("s", 2, 3), ("j", 0, N)]),
     "index[slice]": (sc_index_slice, lambda N: [("n", 1, N), ("c", 1, N), ("a", 0, N), ("b", 0, N), ("st", 1, 3), ("p", 0, N)]),
+    "index[int,negative-step]": (sc_index_int_negstep, lambda N: [("n", 1, 4), ("m", 1, 3), ("c", 1, 4), ("c2", 1, 3), ("i", 0, 1), ("pos", 0, 2), ("e", 0, 3), ("e2", 0, 2)]),
     "index[int-2d]": (sc_index_int_2d, lambda N: [("n", 1, 4), ("m", 1, N), ("c", 1, 4), ("c2", 1, N), ("i", 0, 4), ("e2", 0, N)]),
     "concat": (sc_concat, lambda N: [("n1", 1, N), ("n2", 1, N), ("c", 1, N), ("e", 0, 2 * N)]),
     "concat[different-chunks]": (sc_concat_diff_chunks, lambda N: [("n1", 1, N), ("n2", 1, N), ("c1", 1, N), ("c2", 1, N), ("e", 0, 2 * N)]),
